@@ -32,6 +32,7 @@ func (c02) RequiredBuckets(tier string) []string {
 		}
 		out = append(out, op+"|guest:empty", op+"|guest:plain", op+"|guest:features", op+"|host:genbank", op+"|host:basic")
 	}
+	out = append(out, "cmd:insert", "cmd:insert -e", "cmd:infix", "stream:records-independent")
 	return out
 }
 
@@ -269,4 +270,6 @@ func (m c02) Run(c *fw.Ctx) {
 		k.guest = gts.New(nil, gen.SortedTable(gen.CloneTable(gtab)), append([]byte(nil), guestB...))
 		m.check(c, k)
 	}
+	// the commands the property names as observation points, on the real binary.
+	c15Drive(c, []c15cmd{{"insert", nil}, {"insert", []string{"-e"}}, {"infix", nil}, {"infix", []string{"-e"}}}, c.Pick(96, 3000))
 }
